@@ -94,7 +94,7 @@ META = {
     "C09": {
         "text": "Coq theorems over the hub transition system with a crash action anywhere in the schedule: acknowledged updates are committed, every database "
                 "entry is the committed update of its sequence number for ever, the newest update is always retained, a publish is acknowledged only after its "
-                "update is stored, a crash loses nothing committed and lastSeq/last id are recovered. Partial: bbolt's transaction is one atomic durable step "
+                "update is stored, a crash loses nothing committed and lastSeq/last id are recovered; for every retention size the file is a contiguous suffix of the committed history under consecutive sequence numbers. Partial: bbolt's transaction is one atomic durable step "
                 "of the model (trusted). Tied to the code by exhaustive kill-point enumeration over the scheduling points of the instrumented sources (file reopened after "
                 "every kill) and by handler-level histories with restarts.",
         "design_ref": "DESIGN.md §5 C09", "note": HUB_NOTE,
@@ -103,7 +103,7 @@ META = {
     "C15": {
         "text": "Coq theorems over the hub transition system: after Close's critical section every indexed subscriber's channel is closed for ever (its handler "
                 "sees the end), operations after Close began are refused without effect, Close is idempotent, disconnected = closed for every subscriber in "
-                "every reachable state; reopening keeps the history (C09). Tied to the code by histories with Hub.Stop, refused publishes/subscribes and restarts.",
+                "every reachable state; with no retention limit the file holds, in every reachable state and with crashes anywhere, the whole committed history in commit order and so every acknowledged update, and reopening after Close finds the same file. Tied to the code by histories with Hub.Stop, refused publishes/subscribes and restarts.",
         "design_ref": "DESIGN.md §5 C15", "note": HUB_NOTE,
         "technique": "Coq proof (inductive invariant of the hub LTS over all schedules) + differential correspondence of handler-level histories evaluated in Coq",
     },
